@@ -756,6 +756,14 @@ class OpsMixin:
                 from .vals import Transf
 
                 return Transf(v.nsp, sub, v.site)
+            if isinstance(sub, UList) and sub.elem_type not in asdl.PRIMITIVE:
+                # the children of a rewritten node are rewritten nodes: a view of the list whose
+                # elements come wrapped
+                import copy as _copy
+
+                view = _copy.copy(sub)
+                view.xform = (v.nsp, v.site)
+                return view
             return sub
         raise AnalysisError(f"attribute {name} of {v!r} at {self.cur_site}")
 
